@@ -44,7 +44,7 @@ mod verif_nx_linecomment {
         let mut n = 0u64;
         for prefix in ["//", "///"] {
             // runs of one character around the separator threshold, with every tail
-            for c in ['-', '=', '*', 'a', '/', ' ', '\u{e9}', '1'] {
+            for c in ['-', '=', '*', 'a', '/', ' ', '\u{e9}', '1', '\u{2550}', '\u{b7}', '\u{2014}'] {
                 for k in 0..=13usize {
                     for tail in ["", " ", "  ", "x", " x", "\t", " \t ", "-", "- "] {
                         for lead in ["", " "] {
